@@ -347,17 +347,19 @@ def run(ctx):
             if isinstance(v, Abs) and "sig" in v.attrs:
                 return v.attrs["sig"]
             return super().to_str(ev, v)
-    for n in range(1, 6):
+    max_n, factors = (6, (2, 3, 4, 5)) if ctx.tier == "thorough" \
+        else (5, (2, 3, 4))
+    for n in range(1, max_n + 1):
         # neighbour lists up to renaming: first occurrence order a, b, c...
         lists = set()
-        for combo in itertools.product("abcde"[:n], repeat=n):
+        for combo in itertools.product("abcdef"[:n], repeat=n):
             ren, out_l = {}, []
             for c in combo:
-                ren.setdefault(c, "abcde"[len(ren)])
+                ren.setdefault(c, "abcdef"[len(ren)])
                 out_l.append(ren[c])
             lists.add(tuple(out_l))
         for sigs in sorted(lists):
-            for factor in (2, 3, 4):
+            for factor in factors:
                 ctx.instance(R)
                 names = ["s"] + ["s*%d" % i for i in range(2, factor + 1)]
                 dh = DH(repo, list(sigs))
